@@ -396,7 +396,7 @@ PROPS["C20"] = dict(
     floors={"quick": {"closed_file_probes": 200, "reads_past_the_end": 50, "zero_byte_writes": 20,
                       "writes_larger_than_a_stdio_buffer": 20, "seeks_from_start": 50, "seeks_from_current": 50,
                       "seeks_from_end": 50, "reopens_while_open": 50, "dels_of_open_files": 20, "with_blocks": 1,
-                      "text_roundtrips": 1, "record_wise_reads": 6, "stack_file_lifecycles": 3, "with_blocks_on_files_that_are_not_open": 4, "append_opens": 50, "formatted_writes": 50, "formatted_writes_with_an_empty_text_field": 200, "writes_refused_by_the_mode": 50, "reads_refused_by_the_mode": 50, "operations_checked_with_the_error_indicator_set": 100}},
+                      "text_roundtrips": 1, "record_wise_reads": 6, "stack_file_lifecycles": 3, "with_blocks_on_files_that_are_not_open": 4, "append_opens": 50, "formatted_writes": 50, "formatted_writes_with_an_empty_text_field": 200, "writes_refused_by_the_mode": 50, "reads_refused_by_the_mode": 50, "operations_checked_with_the_error_indicator_set": 100, "formatted_writes_with_a_literal_percent": 200}},
     rule="case = one File object driven through 20-80 (thorough: up to 140) random stream operations; distinct = hash "
          "of the operation list; non-trivial = at least 20 operations",
     assumptions=["one File object per case, one file on disk per shard", "offsets stay within the file"],
